@@ -273,6 +273,8 @@ class Analyzer:
         self.extern_seen = {}
         self.trip = {}  # (fn, bb of `next` call) -> max trip count of the driven loop
         self.trip_seen = set()
+        self.overrides = {}  # (fn path, local) -> interval assumed for a call result (used for partitioned queries)
+        self.cmp_obs = {}  # (fn, bb of switch) -> operand intervals of the deciding comparison
         self.add_obs = {}  # (fn, bb of an Overflow:Add assert) -> (interval of a, interval of b)
         self.incr = {}  # (fn, bb of push/extend) -> max length increment
         self.agg_obs = {}
@@ -1205,6 +1207,13 @@ class Analyzer:
         d = t["discr"]
         dk = self.op_key(st, d)
         div = self.op_iv(f, st, d)
+        if self._recording and dk is not None and dk in st.cmp:
+            op, ak, av, bk, bv = st.cmp[dk]
+            a = st.v.get(ak, av) if ak is not None else av
+            b_ = st.v.get(bk, bv) if bk is not None else bv
+            for bb, blk in enumerate(f.blocks):
+                if blk["term"] is t:
+                    self.cmp_obs[(f.path, bb)] = (op, a, b_)
         outs = []
         listed = []
         for v, bb in t["targets"]:
@@ -1416,6 +1425,10 @@ class Analyzer:
                     s2.v[(dkey[0], dkey[1] + sub)] = iv
             if dkey[0] not in self._mut_borrowed and rng is not None and (dkey not in s2.v):
                 s2.v[dkey] = rng
+            ov = self.overrides.get((f.path, dkey[0])) if not dkey[1] else None
+            if ov is not None:
+                # analysis under an assumed range of this value (partition of an unmodelled input)
+                s2.v[dkey] = ov
             ca = getattr(s2, "copy_after", None)
             if ca is not None:
                 s2.copy[ca[0]] = ca[1]
